@@ -233,6 +233,8 @@ pub fn run_c04(ctx: &Ctx) -> i32 {
     } else {
         vec![0, 1, 3, 8191, 8192, 8193, 65537]
     };
+    // the same lengths once more for contents that end in a block of zero bytes (sparse-file tricks)
+    let lens: Vec<usize> = lens.iter().cloned().chain([8192 | ZEROS, 16384 | ZEROS, 8193 | ZEROS, 100 | ZEROS]).collect();
     let bufs: Vec<usize> = if thorough {
         vec![1, 2, 3, 7, 4096, 8192, 8193, 70000]
     } else {
